@@ -328,7 +328,7 @@ func (w *World) ParamValue(key string, wellFormed bool) []byte {
 		}
 		return jsonOf(fm)
 	case "pos/UnstakingTime":
-		return jsonOf(time.Duration(r.PickI64(60, 600, 3600, 86400)) * time.Second)
+		return jsonOf(time.Duration(r.PickI64(60, 600, 3600, 86400, 0, 1)) * time.Second)
 	case "pos/MaxValidators":
 		if r.Chance(12) {
 			return jsonOf([]uint64{1 << 63, 1<<63 + 5, ^uint64(0), 1<<64 - 2}[r.Intn(4)]) // "no limit" spelled as a huge number
